@@ -6,6 +6,8 @@ mod format;
 pub mod mode;
 #[cfg(feature = "location")]
 pub mod source_code;
+#[cfg(rustpython_parser_verif)]
+pub mod verif_trace;
 
 pub use error::BaseError;
 pub use format::ConversionFlag;
